@@ -170,6 +170,79 @@ pub fn metadata_sweep(rep: &mut Report, thorough: bool) {
     rep.violations.extend(cx.violations);
 }
 
+/// Melding from a source whose stored items were damaged in place after the source had loaded them: whatever
+/// the target writes must still be named by the sha256 of its bytes (the damaged item is skipped, not copied).
+pub struct DamagedSourceProbe;
+
+pub fn damage_variants(v: &[u8]) -> Vec<(&'static str, Vec<u8>)> {
+    let mut out = vec![("truncated-half", v[..v.len() / 2].to_vec()), ("empty", vec![])];
+    if !v.is_empty() {
+        let mut f = v.to_vec();
+        let i = f.len() / 2;
+        f[i] ^= 0x01;
+        out.push(("one-bit-flipped", f));
+        let mut g = v.to_vec();
+        g.pop();
+        out.push(("last-byte-missing", g));
+    }
+    let mut e = v.to_vec();
+    e.extend_from_slice(b" ");
+    out.push(("one-byte-appended", e));
+    out
+}
+
+impl Probe for DamagedSourceProbe {
+    fn on_state(&self, sc: &Scenario, hist: &[Op], cx: &mut Cx) {
+        let w0 = sc.build(hist);
+        if w0.any_dead() {
+            return;
+        }
+        let n = sc.nrep;
+        let stores: Vec<RawStore> = (0..n).map(|r| w0.reps[r].store.snapshot()).collect();
+        for s in 0..n {
+            for r in 0..n {
+                if r == s {
+                    continue;
+                }
+                let missing: Vec<&String> = stores[s].keys().filter(|k| !stores[r].contains_key(*k)).collect();
+                for k in missing {
+                    for (what, bytes) in damage_variants(&stores[s][k]) {
+                        let mut w = sc.build(hist);
+                        w.reps[s].store.put_raw(k, bytes);
+                        let o = w.apply(&Op::Meld(r, s));
+                        cx.count("melds_from_a_damaged_source");
+                        let after = w.reps[r].store.snapshot();
+                        for (k2, v2) in &after {
+                            if let Some(e) = check_item(k2, v2) {
+                                let mut h = hist.to_vec();
+                                h.push(Op::Meld(r, s));
+                                cx.violation("C11", &format!("C11:meld-copied-a-damaged-item:{}", if k.ends_with(".pack") { "pack" } else { "block" }), sc, &h,
+                                    json!({"source": s, "target": r, "damaged_in_source_before_the_meld": k, "damage": what, "error": e, "meld": o.text()}));
+                                return;
+                            }
+                        }
+                        for (k2, v2) in &stores[r] {
+                            if after.get(k2) != Some(v2) {
+                                cx.violation("C11", "C11:item-modified-or-removed", sc, hist, json!({"replica": r, "key": k2, "during": "meld from a damaged source"}));
+                                return;
+                            }
+                        }
+                        cx.outcome(format!("{}:{}", what, o.text()));
+                    }
+                }
+            }
+        }
+    }
+}
+
+pub fn damaged_source_scenarios(thorough: bool) -> Vec<Scenario> {
+    let mut v = vec![];
+    v.push(pair_scenario("pair-arrays", &[2, 3, 9], if thorough { 5 } else { 4 }, &[Op::Commit(0, 2), Op::Meld(0, 1), Op::Meld(1, 0)]));
+    v.push(pair_conflict_scenario("pair-conflict", 2, 3, &[1, 8], if thorough { 4 } else { 2 }, &[Op::Resolve(1, 0, 0), Op::Commit(1, 1), Op::Meld(0, 1)]));
+    v.extend(cross_scenarios(false));
+    v
+}
+
 pub fn scenarios(thorough: bool) -> Vec<Scenario> {
     let mut v = vec![];
     v.push(pair_scenario("pair-arrays", if thorough { &[1, 2, 3, 6, 9] } else { &[2, 3, 9] }, if thorough { 7 } else { 6 },
@@ -200,8 +273,16 @@ pub fn run(thorough: bool) {
         max_states: if thorough { 300_000 } else { 40_000 },
         stop_on_violation: true,
     });
+    run_h(&mut rep, RunCfg {
+        scenarios: damaged_source_scenarios(thorough),
+        probes: vec![Arc::new(DamagedSourceProbe)],
+        pools: vec![1],
+        time_budget_s: if thorough { 1200 } else { 30 },
+        max_states: if thorough { 100_000 } else { 20_000 },
+        stop_on_violation: true,
+    });
     metadata_sweep(&mut rep, thorough);
-    rep.set("rule", json!("monitor evaluated on every replica's storage after EVERY transition of every explored history: every key is <sha256(bytes)>.pack or <i>-<sha256(bytes)>.delta with i = 1 + highest parent index (parsed from the raw bytes), storage before the transition is a subset of storage after with identical bytes, equal keys on different replicas have equal bytes, and the instrumented adapter never saw a write to an existing key with different bytes; plus a commit-metadata sweep (numbers, escapes, nesting; singly and in pairs) melded to a second replica and back. distinct_nontrivial = distinct storage contents observed"));
+    rep.set("rule", json!("monitor evaluated on every replica's storage after EVERY transition of every explored history: every key is <sha256(bytes)>.pack or <i>-<sha256(bytes)>.delta with i = 1 + highest parent index (parsed from the raw bytes), storage before the transition is a subset of storage after with identical bytes, equal keys on different replicas have equal bytes, and the instrumented adapter never saw a write to an existing key with different bytes; plus a commit-metadata sweep (numbers, escapes, nesting; singly and in pairs) melded to a second replica and back; plus, in every state of a second exploration, for EVERY ordered replica pair, EVERY item the source holds and the target lacks and EVERY damage variant (truncated, emptied, one bit flipped, last byte missing, one byte appended) applied in place to the live source: meld, then every item of the target is still named by its bytes and nothing it held changed. distinct_nontrivial = distinct storage contents observed"));
     finalize(&mut rep);
     rep.finish();
 }
